@@ -21,13 +21,14 @@ structure DState where
                              -- none = the source failed, the iteration uses the static upstreams)
   fbs : List (CfgId × List Key) -- handlers with dynamic upstreams: their static (fallback) upstream keys
   srcFails : Bool            -- the dynamic source currently answers with an error
+  hbad : List Key            -- backends whose health endpoint answers 503
   streaming : List Nat       -- requests whose response body is being copied (headers arrived, body not finished)
   wsReqs : List Nat          -- requests that asked for a protocol upgrade (Connection: Upgrade)
   wsStreaming : List Nat     -- …whose upgraded connection is open (a subset of `streaming`)
   aged : List Nat            -- requests that were already parked while a slow answer (`sl`) was being waited for:
                              -- their own round trip has taken longer than unhealthy_latency, whatever comes
 
-def dinit : DState := { s := init, cur := none, down := [], keys := [], iters := [], fbs := [], srcFails := false, streaming := [], wsReqs := [], wsStreaming := [], aged := [] }
+def dinit : DState := { s := init, cur := none, down := [], keys := [], iters := [], fbs := [], srcFails := false, hbad := [], streaming := [], wsReqs := [], wsStreaming := [], aged := [] }
 
 def stores (s : State) (c : CfgId) : List Key → Option State
   | [] => some s
@@ -106,7 +107,7 @@ def advance : Nat → DState → Nat → Option (State × String)
       match d.s.cfgs[q.cfg]? with
       | none => none
       | some cs =>
-        match firstAvailable q.par d.s cs.ups with
+        match firstAvailableOf q.par d.s q.cfg cs.ups with
         | none =>
           match step d.s (.noUpstream r) with
           | none => none
@@ -133,6 +134,8 @@ def strikesFor (p : Params) (what : String) (code : Nat) (aged : Bool := false) 
 inductive SStep
   | load (ks : List Key) (p : Params) (fb : List Key)   -- fb: static upstreams of a handler with a dynamic source
   | srcFail (b : Bool)
+  | health (k : Key) (ok : Bool)   -- the health endpoint of backend k starts passing / failing
+  | round                          -- one round of active health checks of the loaded configuration
   | newReqWs                -- a GET that asks for a protocol upgrade (websocket)
   | wsBegin (r : Nat)       -- the backend switches protocols (101): the connection stays open
   | streamBegin (r : Nat)   -- the backend sends a 200 header and the first part of the body, then pauses
@@ -148,7 +151,7 @@ inductive SStep
   deriving Repr
 
 def noParams : Params :=
-  { passive := false, failDur := 0, maxFails := 1, retries := 0, maxReq := 0, firstMax := 0, badStatus := [], latency := false, dynamic := false }
+  { passive := false, failDur := 0, maxFails := 1, retries := 0, maxReq := 0, firstMax := 0, badStatus := [], latency := false, aOn := false, aPasses := 1, aFails := 1, dynamic := false }
 
 /-- the status code behind an answer token of the wire syntax (`none` = not a complete answer) -/
 def answerStatus : String → Option Nat
@@ -302,25 +305,64 @@ def continueOrRet (d : DState) (s1 : State) (r : Nat) (res : String) : Option (D
   if isDone s1 r then some ({ d with s := s1 }, res)
   else (advance fuel0 { d with s := s1 } r).map fun x => ({ d with s := x.1 }, x.2)
 
+/-- would an active health check of backend `k` pass now?  (it must be reachable and its health
+    endpoint must answer 2xx) -/
+def effUp (d : DState) (k : Key) : Bool := !keyDown d k && !d.hbad.contains k
+
+/-- healthchecks.go doActiveHealthCheckForAllHosts: one check per upstream of handler `c`
+    (`i` = position of the head of `ups`) -/
+def roundFrom (d : DState) (c : CfgId) : State → Nat → List (Key × HostId) → Option State
+  | s, _, [] => some s
+  | s, i, u :: rest =>
+    match step s (.activeCheck c i (effUp d u.1)) with
+    | some s' => roundFrom d c s' (i + 1) rest
+    | none => none
+
+def activeRound (d : DState) (s : State) (c : CfgId) : Option State :=
+  match s.cfgs[c]? with
+  | some cs => if cs.par.aOn then roundFrom d c s 0 cs.ups else some s
+  | none => none
+
+/-- Provision of a new configuration and unloading of the one it replaces -/
+def loadCore (d : DState) (ks : List Key) (p : Params) (fb : List Key) : Option (DState × String) :=
+  match step d.s (.newCfg p) with
+  | none => none
+  | some s1 =>
+    match stores s1 d.s.cfgs.length (if p.dynamic then fb else ks) with
+    | none => none
+    | some s2 =>
+      match d.cur with
+      | none => some ({ d with s := s2, cur := some d.s.cfgs.length, keys := d.keys ++ [ks], fbs := (d.s.cfgs.length, fb) :: d.fbs }, "L")
+      | some old =>
+        if canceled s2 old then some ({ d with s := s2, cur := some d.s.cfgs.length, keys := d.keys ++ [ks], fbs := (d.s.cfgs.length, fb) :: d.fbs }, "L")
+        else
+          match unload s2 old (ownKeys d s2 old) with
+          | none => none
+          | some s3 => some ({ d with s := s3, cur := some d.s.cfgs.length, keys := d.keys ++ [ks], fbs := (d.s.cfgs.length, fb) :: d.fbs }, "L")
+
 /-- one schedule step: new state and the event token; `none` = the step is not possible here
     (`bad-op`) -/
 def sstep (d : DState) : SStep → Option (DState × String)
   | .srcFail b => if d.srcFails == b then none else some ({ d with srcFails := b }, "-")
   | .load ks p fb =>
-    match step d.s (.newCfg p) with
+    -- reverseproxy.go:364-374: Provision starts the active checker, which runs a first round at once
+    match loadCore d ks p fb with
     | none => none
-    | some s1 =>
-      match stores s1 d.s.cfgs.length (if p.dynamic then fb else ks) with
+    | some x =>
+      match activeRound d x.1.s d.s.cfgs.length with
       | none => none
-      | some s2 =>
-        match d.cur with
-        | none => some ({ d with s := s2, cur := some d.s.cfgs.length, keys := d.keys ++ [ks], fbs := (d.s.cfgs.length, fb) :: d.fbs }, "L")
-        | some old =>
-          if canceled s2 old then some ({ d with s := s2, cur := some d.s.cfgs.length, keys := d.keys ++ [ks], fbs := (d.s.cfgs.length, fb) :: d.fbs }, "L")
-          else
-            match unload s2 old (ownKeys d s2 old) with
-            | none => none
-            | some s3 => some ({ d with s := s3, cur := some d.s.cfgs.length, keys := d.keys ++ [ks], fbs := (d.s.cfgs.length, fb) :: d.fbs }, "L")
+      | some s' => some ({ x.1 with s := s' }, x.2)
+  | .health k ok =>
+    if d.hbad.contains k == !ok then none
+    else some ({ d with hbad := if ok then d.hbad.filter (· != k) else k :: d.hbad }, "-")
+  | .round =>
+    match curLive d with
+    | none => none
+    | some c =>
+      match d.s.cfgs[c]? with
+      | none => none
+      | some cs =>
+        if cs.par.aOn then (activeRound d d.s c).map fun s' => ({ d with s := s' }, "K") else none
   | .badLoad ks =>
     match step d.s (.newCfg noParams) with
     | none => none
